@@ -80,7 +80,7 @@ contract("_handle_job_set.call", source=M + "_handle_job_set.call", params={"sel
 
 # ---- bounded stand-in (B3): real leaf changes on a real temp project, one injected fault ----------
 from bounded import c10_faults
-bounded_check(name="c10-faults", fn=c10_faults.run_probe, domain=c10_faults.domain, exhaustive=True,
+bounded_check(name="c10-faults", props=["C10", "C11"], fn=c10_faults.run_probe, domain=c10_faults.domain, exhaustive=True,
               label="B3: every composite of 2 (thorough: 2 and 3) distinct leaf changes out of 10 kinds (edit, move file/folder, create file/folder, "
                     "create in new folder, remove) x do/undo x every fs-call index (OSError injected) and every task-handle observer callback index "
                     "(TaskHandle.stop()); tree snapshot and history lists compared")
